@@ -362,6 +362,8 @@ func (ex *Exec) evalMod(st *State, m *node, e *env) []modTarget {
 			return []modTarget{{region: "G!push*"}, {region: "G!msgline"}, {region: "G!lastrecv"}}
 		case "readers":
 			return []modTarget{{region: "G!rd*"}}
+		case "cancels":
+			return []modTarget{{region: "G!cancelled"}}
 		case "heap":
 			return []modTarget{{region: "F!*"}, {region: "M!*"}, {region: "S!*"}, {region: "B!*"}, {region: "G!g_*"}, {region: "V!*"}}
 		case "chans":
@@ -392,6 +394,25 @@ func (ex *Exec) evalMod(st *State, m *node, e *env) []modTarget {
 	case "call":
 		if m.args[0].op == "ident" {
 			switch m.args[0].name {
+			case "sendson":
+				// sendson(ch): the send trace, length and token count of channel ch only
+				v := ex.eval(st, m.args[1], e)
+				out := []modTarget{{region: "G!sentlen", ref: v.T, sort: arr("Int", "Int")}, {region: "G!tokens", ref: v.T, sort: arr("Int", "Int")},
+					{region: "G!sentstamp", ref: v.T, sort: arr("Int", arr("Int", "Int"))}}
+				for _, r := range sortedKeys(ex.regSorts) {
+					if strings.HasPrefix(r, "G!sent!") {
+						out = append(out, modTarget{region: r, ref: v.T})
+					}
+				}
+				if v.Typ != nil {
+					if ct, ok := v.Typ.Underlying().(*types.Chan); ok {
+						for _, lf := range leaves(ct.Elem()) {
+							r, rs := sentRegion(ct.Elem(), lf)
+							out = append(out, modTarget{region: r, ref: v.T, sort: rs})
+						}
+					}
+				}
+				return out
 			case "mapof":
 				v := ex.eval(st, m.args[1], e)
 				mt, ok := v.Typ.Underlying().(*types.Map)
@@ -843,8 +864,14 @@ func (st *State) markCancelled(ch Val) {
 }
 
 func (ex *Exec) recvValue(st *State, ch Val, et types.Type) Val {
+	// channels of different element types are different objects
+	for tt, ttyp := range ex.trackedChans {
+		if tt != ch.T && ch.Typ != nil && !types.Identical(ttyp.Underlying().(*types.Chan).Elem(), et) {
+			st.assume(not(eq(ch.T, tt)))
+		}
+	}
 	tk := st.region("G!tokens", arr("Int", "Int"))
-	if ex.trackedChans[ch.T] {
+	if _, tracked := ex.trackedChans[ch.T]; tracked {
 		// every producer of this channel is known: a receive completes only if a message exists
 		st.assume("(>= " + sel(tk, ch.T) + " 1)")
 	}
@@ -1096,6 +1123,9 @@ func (ex *Exec) callFuncType(st *State, site string, ct *Contract, fnv Val, args
 // callBySignature applies a contract attached to a signature (function type, interface method, function-valued field).
 func (ex *Exec) callBySignature(st *State, site string, ct *Contract, sig *types.Signature, fnv Val, args []Val, k func(*State, Val), trace bool) {
 	e := &env{vars: map[string]Val{"self": fnv}}
+	if fo, ok := fnv.Meta.(guardOrigin); ok && fo.root != nil && fnv.Base != "" {
+		e.vars["owner"] = term(fnv.Base, types.NewPointer(fo.root)) // the object whose field holds the function value
+	}
 	for i := 0; i < sig.Params().Len() && i < len(args); i++ {
 		e.vars[sig.Params().At(i).Name()] = args[i]
 		e.vars["arg"+strconv.Itoa(i)] = args[i]
